@@ -103,6 +103,8 @@ func (d *dataRun) runCase(n int, c DataCase) {
 			d.codecCase(c, out)
 		case "pool":
 			d.poolCase(c, out)
+		case "hostile":
+			d.hostileCase(c, out)
 		default:
 			out["err"] = "unknown family"
 		}
